@@ -1,0 +1,50 @@
+//go:build verif
+
+package filtering
+
+// Contracts for govc (see /verif/DESIGN.md).  This file is comment-only and is compiled only with -tags=verif.
+
+// ---- C17: local files only when matching the safe patterns ----
+
+//@ define safePath(globs []string, p string) bool = exists k int :: 0 <= k && k < len(globs) && filepath.Match(globs[k], p)
+
+//@ func pathMatchesAny(globs []string, filePath string) (ok bool)
+//@   property C17
+//@   requires absolute-and-clean: filepath.Abs(filePath) == filePath && res1(filepath.Abs(filePath)) == nil
+//@   requires valid-patterns: forall k int :: 0 <= k && k < len(globs) ==> res1(filepath.Match(globs[k], filePath)) == nil
+//@   modifies nothing
+//@   ensures matches-some: ok == safePath(globs, filePath)
+//@   ensures no-patterns-nothing: len(globs) == 0 ==> !ok
+//@   loop 1 invariant 0 <= #i && #i <= len(globs)
+//@   loop 1 invariant forall j int :: 0 <= j && j < #i ==> !filepath.Match(globs[j], filePath)
+
+// The configured patterns are valid and the cleaned path of an absolute location is its own absolute form (properties of
+// the configuration validation and of path/filepath, assumed here as preconditions of the entry points).
+//@ define patternsOK(d *DNSFilter, p string) bool = (forall k int :: 0 <= k && k < len(d.safeFSPatterns) ==> res1(filepath.Match(d.safeFSPatterns[k], p)) == nil) && filepath.Abs(p) == p && res1(filepath.Abs(p)) == nil
+
+//@ func (d *DNSFilter) reader(fltURL string) (r io.ReadCloser, err error)
+//@   property C17
+//@   requires filepath.IsAbs(fltURL) ==> patternsOK(d, filepath.Clean(fltURL))
+//@   modifies *
+//@   callsite os.Open(name) requires name == filepath.Clean(fltURL0) && filepath.IsAbs(fltURL0) && safePath(d.safeFSPatterns, name)
+//@   ensures unsafe-path-refused: filepath.IsAbs(fltURL) && !safePath(old(d.safeFSPatterns), filepath.Clean(fltURL)) ==> err != nil
+
+//@ func (d *DNSFilter) validateFilterURL(urlStr string) (err error)
+//@   property C17
+//@   requires filepath.IsAbs(urlStr) ==> patternsOK(d, filepath.Clean(urlStr))
+//@   modifies *
+//@   ensures unsafe-path-rejected: filepath.IsAbs(urlStr) && !safePath(old(d.safeFSPatterns), filepath.Clean(urlStr)) ==> err != nil
+
+// Files of the package's own cache directory: data/filters/<id>.txt.
+//@ func (d *DNSFilter) load(flt *FilterYAML) (err error)
+//@   property C17
+//@   modifies *
+//@   callsite os.Open(name) requires name == flt.Path(d.conf.DataDir)
+
+// Rule storages read the cache files recorded in the Filter entries (composed by this package from the data directory).
+//@ func newRuleStorage(filters []Filter) (rs *filterlist.RuleStorage, err error)
+//@   property C17
+//@   modifies *
+//@   callsite os.ReadFile(name) requires name == f.FilePath
+
+//@ sweep C17 os.Open, os.ReadFile, os.OpenFile
